@@ -265,7 +265,93 @@ def run(ctx: Ctx) -> None:
         ctx.obligation("correspondence:frame_read", False, "correspondence", "model not built")
         ctx.obligation("correspondence:read_ready-lines", False, "correspondence", "model not built")
 
+    serial_path_oracle(ctx, T, lines, 300 if thorough else 80)
     asyncio.run(stream_oracle(ctx, lines, 30 if thorough else 10))
+
+
+def serial_path_oracle(ctx: Ctx, T, lines: list[str], trials: int) -> None:
+    """The WHOLE serial receive path (real _read_ready -> _frame_read -> _pkt_read with its
+    decorators) on multi-line histories: nothing but the protocol callback may be reached, no
+    exception may leave _read_ready, and every acceptable line is handed to the protocol."""
+    import ramses_tx.packet as P  # noqa: PLC0415
+
+    rng = ctx.rng
+
+    class Loop:
+        def __init__(self):
+            self.calls = []
+
+        def call_soon_threadsafe(self, fn, *a):
+            self.calls.append((fn, a))
+
+        def call_soon(self, fn, *a):
+            self.calls.append((fn, a))
+
+    class Proto:
+        def __init__(self):
+            self.pkts = []
+
+        def pkt_received(self, pkt):
+            self.pkts.append(str(pkt))
+
+    ctls = ["01:111111", "01:222222", "01:333333", "23:100224"]
+    sync_variants = ["1F09 003 FF0514", "1F09 003 FF0000", "1F09 001 FF", "1F09 002 FF05", "1F09 003 00FFFF", "1F09 003 F80514",
+                     "2309 003 0007D0", "30C9 003 0007D0", "30C9 006 0007D00107D0", "3B00 002 FCC8", "1F09 003 FF0514 # c", "1F09 003 FFFFFF"]
+    good = [ln for ln in lines if ln and "\r" not in ln and "\n" not in ln][:300]
+    dtm = "2024-01-01T12:00:00.000000"
+    for _ in range(trials):
+        T._global_sync_cycles.clear() if hasattr(T, "_global_sync_cycles") else None
+        hist = []
+        for _ in range(rng.randint(3, 12)):
+            if rng.random() < 0.7:
+                c = rng.choice(ctls)
+                hist.append(f"045  I --- {c} --:------ {c} {rng.choice(sync_variants)}")
+            else:
+                hist.append(rng.choice(good))
+        stream = b"".join(h.encode("ascii", "replace") + b"\r\n" for h in hist)
+        cuts = sorted(rng.sample(range(len(stream) + 1), min(3, len(stream) + 1)))
+        chunks, prev = [], 0
+        for c in cuts:
+            chunks.append(stream[prev:c])
+            prev = c
+        chunks.append(stream[prev:])
+        t = T.PortTransport.__new__(T.PortTransport)
+        t._recv_buffer = b""
+        t._closing = False
+        t._reading = True
+        t._max_read_size = 4096
+        t._inbound_rule = {}
+        t._outbound_rule = {}
+        t._extra = {"active_gwy": None, "signature": None}
+        t._this_pkt = t._prev_pkt = None
+        it = iter(chunks)
+        t._serial = SimpleNamespace(read=lambda n: next(it))
+        loop, proto = Loop(), Proto()
+        t._loop = loop
+        t._protocol = proto
+        t._init_fut = SimpleNamespace(done=lambda: True)
+        escaped = None
+        for _c in chunks:
+            try:
+                T.PortTransport._read_ready(t)
+            except Exception as err:  # noqa: BLE001
+                escaped = err
+                break
+        for fn, a in loop.calls:
+            fn(*a)
+        expect = []
+        for h in hist:
+            try:
+                expect.append(str(P.Packet.from_file(dtm, T._normalise(T._str(h.encode("ascii", "replace") + b"\r\n")))))
+            except Exception:  # noqa: BLE001
+                pass
+        ctx.case(("serial-history", tuple(hist), tuple(chunks)), bool(expect), "serial-history")
+        case = {"lines": hist, "reads": [c.decode("ascii", "replace") for c in chunks], "delivered": proto.pkts, "acceptable": expect}
+        if escaped is not None:
+            ctx.violation(f"escape:{type(escaped).__name__}@read_ready", f"{type(escaped).__name__} escapes the serial receive path",
+                          {**case, "error": repr(escaped)}, "history")
+        elif proto.pkts != expect:
+            ctx.violation("serial-frames-lost", "acceptable lines of a serial stream were not handed to the protocol", case, "history")
 
 
 async def stream_oracle(ctx: Ctx, lines: list[str], trials: int) -> None:
